@@ -284,7 +284,14 @@ type handler struct {
 
 func (h handler) PrepareTxnFiles(ops []*operation.QueuedOperation) (*protocol.AnchoringInfo, error) {
 	w := h.w
-	max := int(w.c.maxFor(w.cur)) // the cutter sizes batches by the protocol version that is current when it cuts
+	// the maximum operation count is that of the protocol version the batch is written (and read) under - the version
+	// its operations have been queued under -, whatever version is current by the time the batch is cut
+	max := int(w.c.maxFor(w.cur))
+	for i, v := range versions {
+		if v == h.version {
+			max = int(w.c.maxFor(i))
+		}
+	}
 	if len(ops) == 0 {
 		w.fail("operation handler called with an empty batch")
 		return nil, errors.New("empty batch")
@@ -619,7 +626,7 @@ func drawAdd(t *rapid.T, curVersion *int) Step {
 }
 
 func TestWriterStateMachine(t *testing.T) {
-	ev.Rule(chkSM, "rapid schedules of 5-40 steps over a real batch.Writer (never started; one processing step at a time through the verif hook; fault plans may stop it while a batch is in flight, after which a new writer over the same queue takes over), real BatchCutter and MemQueue, maxOperationCount 1-4 (in half of the schedules a different one per version, with the current version advancing while the writer runs: 'upgrade' steps), protocol versions {0, 10, 20}: Add(operation for suffix a..e under a version, optionally flagged expired), monitor tick, timeout tick, each tick with a fault plan per cut batch (handler/CAS failure - for the real OperationHandler the k-th CAS write -, anchor-write failure) and submissions arriving while the batch is in flight; handler = deterministic stub of the first-per-suffix / deferred / expired contract, or the real txnprovider.OperationHandler over a fault-injecting CAS (then, in half of the schedules, submissions enter through a real DocumentHandler with a version time inside the protocol version rather than its genesis time); oracle (driven by observations - every PrepareTxnFiles call reveals the cut batch): prefix of the model queue, one version, size <= the maximum of the version current at the cut, smaller only on a timeout tick or at a version boundary; after every step the real queue equals the model (failed batch back at the head in order, in-flight additions behind it, deferred operations at the tail) and accepted = queue + anchored + expired with no operation anchored twice; at quiescence every accepted non-expired operation is in exactly one anchored batch; non-trivial = a failed batch followed by a successful one, or a deferred operation, or a version boundary inside the queue")
+	ev.Rule(chkSM, "rapid schedules of 5-40 steps over a real batch.Writer (never started; one processing step at a time through the verif hook; fault plans may stop it while a batch is in flight, after which a new writer over the same queue takes over), real BatchCutter and MemQueue, maxOperationCount 1-4 (in half of the schedules a different one per version, with the current version advancing while the writer runs: 'upgrade' steps), protocol versions {0, 10, 20}: Add(operation for suffix a..e under a version, optionally flagged expired), monitor tick, timeout tick, each tick with a fault plan per cut batch (handler/CAS failure - for the real OperationHandler the k-th CAS write -, anchor-write failure) and submissions arriving while the batch is in flight; handler = deterministic stub of the first-per-suffix / deferred / expired contract, or the real txnprovider.OperationHandler over a fault-injecting CAS (then, in half of the schedules, submissions enter through a real DocumentHandler with a version time inside the protocol version rather than its genesis time); oracle (driven by observations - every PrepareTxnFiles call reveals the cut batch): prefix of the model queue, one version, size <= the maximum operation count of the batch's own protocol version (the version its operations were queued under, which need not be the current one), smaller only on a timeout tick or at a version boundary; after every step the real queue equals the model (failed batch back at the head in order, in-flight additions behind it, deferred operations at the tail) and accepted = queue + anchored + expired with no operation anchored twice; at quiescence every accepted non-expired operation is in exactly one anchored batch; non-trivial = a failed batch followed by a successful one, or a deferred operation, or a version boundary inside the queue")
 	ev.Rapid(t, chkSM, 400, 8000, func(t *rapid.T) {
 		c := &Case{Max: uint(rapid.IntRange(1, 4).Draw(t, "max")), Handler: rapid.SampledFrom([]string{"stub", "stub", "real"}).Draw(t, "handler")}
 		cur := 0
